@@ -21,8 +21,11 @@ entries in {1,j,-1} and <= 6 (thorough 9) entries, every {0,+-1,+-j} matrix with
 kappa 1e2 / 1e4.  Members that are column-rank deficient or have kappa > 1e4 are excluded
 and counted.
 """
+import contextlib
 import itertools
 import math
+import os
+import traceback
 
 import numpy as np
 
@@ -30,7 +33,7 @@ from vmc import bfs
 from vmc import families as F
 from vmc import numerics as N
 from vmc.parallel import run_shards, shard
-from vmc.report import Check
+from vmc.report import Broken, Check
 
 PID = "C04"
 LEVEL = "exploration"
@@ -64,6 +67,54 @@ SIGMA2 = (1.0, 1e-2, 1e-4, 1e-6, 1e-8)
 HEAD = 160
 ALPH3 = (1, 1j, -1)
 ALPH5 = (0, 1, 1j, -1, -1j)
+
+
+MISSING = object()
+VERIF_ROOT = os.path.dirname(os.path.dirname(os.path.abspath(__file__)))
+
+
+def _private(obj, *names, default=MISSING):
+    """tolerant access to a NON-public name of the library (oracle input / anchored helper): the first of the
+    candidate spellings that exists, else `default`.  A relation that needs it is then skipped and counted as
+    outcome `oracle_input_unavailable`; a missing private name never becomes a property violation."""
+    for nm in names:
+        try:
+            return getattr(obj, nm)
+        except AttributeError:
+            continue
+    return default
+
+
+def _origin(exc):
+    """'library' if the innermost frame that belongs to pyphysim or to /verif is pyphysim's, else 'check'"""
+    tb = traceback.extract_tb(exc.__traceback__)
+    for fr in reversed(tb):
+        fn = os.path.abspath(fr.filename)
+        if "/pyphysim/" in fn and not fn.startswith(VERIF_ROOT + os.sep):
+            return "library"
+        if fn.startswith(VERIF_ROOT + os.sep):
+            return "check"
+    return "check"
+
+
+@contextlib.contextmanager
+def guard(chk, sig_prefix, case):
+    """chk.guard for VALID calls: an exception raised inside pyphysim is a violation; an exception whose
+    innermost own frame is the check's code means the check is broken (exit 2), never a property verdict"""
+    try:
+        with chk.guard(sig_prefix, case):
+            try:
+                yield
+            except (KeyboardInterrupt, SystemExit, Broken):
+                raise
+            except BaseException as e:  # noqa
+                if _origin(e) == "check":
+                    raise Broken("check code raised %s: %s at %s (case %s)" % (
+                        type(e).__name__, e, traceback.extract_tb(e.__traceback__)[-1][:3],
+                        {k: v for k, v in case.items() if k in ("part", "scheme", "fam", "member", "history")}))
+                raise
+    finally:
+        pass
 
 
 # ----------------------------------------------------------------------
@@ -227,7 +278,7 @@ def run_roundtrip(chk, case):
     dkind = case.get("dkind", "c128")
     chk.outcome("scheme_shape", (scheme, form, nr, nt))    # recorded before the library is called: a
     chk.outcome("dtypes", (scheme, H.dtype.name, dkind))   # crashing scheme is a violation, not vacuity
-    with chk.guard((scheme, cls), case):
+    with guard(chk, (scheme, cls), case):
         chk.count("eval_roundtrip")
         passed = np.array(H[:, 0] if (form == "1d" and scheme == "MRC") else (H[0, :] if form == "1d" else H))
         passed0 = passed.copy()
@@ -269,14 +320,20 @@ def run_roundtrip(chk, case):
                          observed=r if r.size <= 8 else r[:8], expected=d if d.size <= 8 else d[:8],
                          msg="max err %.3g, kappa %.3g" % (N.err(r, d), kappa))
                 break
-            held = np.asarray(obj._channel)
             if not (np.array_equal(passed, passed0) and passed.dtype == passed0.dtype):
                 chk.fail((scheme, "channel_argument_modified", "decode_round_%d" % rnd), case,
                          observed=passed, expected=passed0)
                 break
-            if held.shape != (nr, nt) or not np.array_equal(held, H):
-                chk.fail((scheme, "held_channel_modified", "decode_round_%d" % rnd), case, observed=held, expected=H)
+            # (the channel the object HOLDS is observed through public behaviour only: the next rounds must
+            #  return the data again and Nr / Nt must still be those of the channel)
+            if (obj.Nr, obj.Nt) != (nr, nt):
+                chk.fail((scheme, "dimensions_changed_by_decode", "decode_round_%d" % rnd), case,
+                         observed=(obj.Nr, obj.Nt), expected=(nr, nt))
                 break
+            dg = bfs.digest(bfs.state_of(obj), 12)
+            if rnd > 1:
+                chk.outcome("state_digest_stable_across_decodes", dg == dg_prev)
+            dg_prev = dg
             if not np.array_equal(y, y0):
                 chk.fail((scheme, "received_data_modified", "decode_round_%d" % rnd), case)
                 break
@@ -336,34 +393,74 @@ def check_aliasing(chk, case, scheme, form, H, d, r_ref, kappa, CR=C_RT):
 
 
 def check_pair(chk, case, obj, scheme, H, kappa, layers, CR=C_RT):
-    """the linear precoder / receive-filter pair the scheme advertises (used by calc_SINRs):
-    ||W||_F^2 == 1 (power split), G_H H W == I_layers, encode(d) == W X"""
+    """the linear precoder / receive-filter pair of the scheme, observed through the PUBLIC encode / decode of
+    one block: W = [encode(e_k)], G = [decode(e_j)];  ||W||_F^2 == 1 (power split), G H W == I_layers.
+    Optional extras when the private helpers exist: _calc_precoder(H) == W, _calc_receive_filter(H, 0) == G."""
     nr, nt = H.shape
     chk.count("eval_pair")
-    W = np.asarray(obj._calc_precoder(obj._channel))
-    G = obj._calc_receive_filter(obj._channel, 0.0)
-    if W.shape != (nt, layers):
-        chk.fail((scheme, "precoder_shape"), case, observed=W.shape, expected=(nt, layers))
-        return
+    Hc = H.astype(complex)
+    W = np.zeros((nt, layers), dtype=complex)
+    for k in range(layers):
+        e = np.zeros(layers, dtype=complex)
+        e[k] = 1.0
+        col = np.asarray(obj.encode(e))
+        if col.size != nt:
+            chk.fail((scheme, "precoder_shape"), case, observed=col.shape, expected=(nt, 1))
+            return
+        W[:, k] = col.reshape(nt)
+    G = np.zeros((layers, nr), dtype=complex)
+    for j in range(nr):
+        e = np.zeros((nr, 1), dtype=complex)
+        e[j, 0] = 1.0
+        col = np.asarray(obj.decode(e))
+        if col.size != layers:
+            chk.fail((scheme, "receive_filter_shape"), case, observed=col.shape, expected=(layers,))
+            return
+        G[:, j] = col.reshape(layers)
     pw = float(np.sum(np.abs(W) ** 2))
     if not N.close(pw, 1.0, 1.0, CR):
         chk.fail((scheme, "precoder_power"), case, observed=pw, expected=1.0,
-                 msg="||_calc_precoder(H)||_F^2 != 1")
-    G = np.asarray(G)
-    eq = (G * (H @ W)) if G.ndim == 0 else (G @ H @ W)
+                 msg="||W||_F^2 != 1 for the linear map W applied by encode")
+    eq = G @ Hc @ W
     if not N.close(eq, np.eye(layers), kappa, CR):
         chk.fail((scheme, "filter_precoder_pair"), case, observed=N.err(eq, np.eye(layers)), expected=0,
-                 msg="_calc_receive_filter(H,0) . H . _calc_precoder(H) != I")
-    d = data_vec(layers)
-    x = np.asarray(obj.encode(d))
-    if not N.close(x, W @ d.reshape(layers, 1), 1.0, CR):
-        chk.fail((scheme, "encode_vs_precoder"), case, observed=N.err(x, W @ d.reshape(layers, 1)),
-                 expected=0, msg="encode(d) != _calc_precoder(H) @ d")
+                 msg="(map of decode) . H . (map of encode) != I")
+    # extras: the helpers calc_SINRs is built on, when reachable under a known name
+    cp = _private(obj, "_calc_precoder", "calc_precoder")
+    cf = _private(obj, "_calc_receive_filter", "calc_receive_filter")
+    for nm, f in (("precoder_helper", cp), ("receive_filter_helper", cf)):
+        if f is MISSING:
+            chk.outcome("oracle_input_unavailable", nm)
+            chk.count("oracle_input_unavailable")
+    H2 = np.array(H)
+    if cp is not MISSING:
+        Wp = np.asarray(cp(H2))
+        if Wp.shape != (nt, layers) or not N.close(Wp, W, 1.0, CR):
+            chk.fail((scheme, "encode_vs_precoder"), case, observed=N.err(Wp, W), expected=0,
+                     msg="encode(d) != _calc_precoder(H) @ d")
+    if cf is not MISSING:
+        Gp = np.asarray(cf(H2, 0.0))
+        Gp = Gp.reshape(1, 1) * np.ones((layers, nr)) if Gp.ndim == 0 else Gp
+        ok = Gp.shape == (layers, nr) and (N.close(Gp, G, kappa, CR) if np.asarray(cf(H2, 0.0)).ndim else
+                                           N.close(Gp @ Hc @ W, np.eye(layers), kappa, CR))
+        if not ok:
+            chk.fail((scheme, "decode_vs_receive_filter"), case, expected=0,
+                     msg="decode(y) != _calc_receive_filter(H, 0) applied to y")
 
 
 # ----------------------------------------------------------------------
-# ZF / MMSE filter relations
-# ----------------------------------------------------------------------
+def public_filter(M, H, noise_var):
+    """the receive filter as the property observes it: the linear map that Blast.decode applies.
+    decode(I_Nr) = vec_F(G_H I), G_H = sqrt(Nt) W  ->  W (Nt x Nr).  Public API only."""
+    nr, nt = H.shape
+    o = M.Blast(np.array(H))
+    o.set_noise_var(noise_var)
+    g = np.asarray(o.decode(np.eye(nr, dtype=complex)))
+    if g.size != nt * nr:
+        return g
+    return g.reshape((nt, nr), order="F") / math.sqrt(nt)
+
+
 def run_filters(chk, case):
     from pyphysim.mimo import mimo as M
     H = np.asarray(case["H"])
@@ -378,41 +475,46 @@ def run_filters(chk, case):
     npinv2 = 1.0 / sv[-1]
     chk.outcome("kappa_decade", int(math.floor(math.log10(max(kappa, 1.0)) + 1e-9)))
     chk.outcome("filter_shape", (nr, nt))
-    with chk.guard(("zf_filter", shape_class(nr, nt)), case):
+    # optional extras: the anchored private helpers called directly, when they exist under a known name
+    zf_priv = _private(M.MimoBase, "_calcZeroForceFilter", "calcZeroForceFilter", "_calc_zero_force_filter")
+    mmse_priv = _private(M.MimoBase, "_calcMMSEFilter", "calcMMSEFilter", "_calc_mmse_filter")
+    brf_priv = _private(M.Blast, "_calc_receive_filter", "calc_receive_filter")
+    for nm, f in (("zf_helper", zf_priv), ("mmse_helper", mmse_priv), ("blast_receive_filter_helper", brf_priv)):
+        if f is MISSING:
+            chk.outcome("oracle_input_unavailable", nm)
+            chk.count("oracle_input_unavailable")
+    with guard(chk, ("zf_filter", shape_class(nr, nt)), case):
         chk.count("eval_zf")
-        G = np.asarray(M.MimoBase._calcZeroForceFilter(np.array(H)))
-        if G.shape != (nt, nr):
-            chk.fail(("zf_filter", "shape"), case, observed=G.shape, expected=(nt, nr))
-        else:
+        for nm, nv in (("noise0.0", 0.0), ("noiseNone", None), ("noise_int0", 0)):
+            G = public_filter(M, H, nv)             # the ZF filter reached through the public decode
+            if G.shape != (nt, nr):
+                chk.fail(("zf_filter", "shape", nm), case, observed=G.shape, expected=(nt, nr))
+                continue
             if not N.close(G @ H, I, kappa, C_RT):
-                chk.fail(("zf_filter", "GH!=I"), case, observed=N.err(G @ H, I), expected=0)
+                chk.fail(("zf_filter", "GH!=I", nm), case, observed=N.err(G @ H, I), expected=0)
             if not N.close(G, pinv_ref, kappa, C_RT):
-                chk.fail(("zf_filter", "not_pseudo_inverse"), case,
-                         observed=N.err(G, pinv_ref), expected=0)
-        B0 = np.asarray(M.Blast._calc_receive_filter(np.array(H), 0.0))
-        Bn = np.asarray(M.Blast._calc_receive_filter(np.array(H), None))
-        Bi = np.asarray(M.Blast._calc_receive_filter(np.array(H), 0))
-        # alternative entry points of the same static helpers: subclass, instance
-        for nm, alt in (("via_GMDMimo_class", M.GMDMimo._calcZeroForceFilter(np.array(H))),
-                        ("via_instance", M.MRC(None)._calcZeroForceFilter(np.array(H)))):
-            if not np.array_equal(np.asarray(alt), G):
-                chk.fail(("zf_filter", "entry_point_differs", nm), case)
-        s_alt = SIGMA2[1] * fam_scale(case["fam"]) ** 2
-        Wb = np.asarray(M.MimoBase._calcMMSEFilter(np.array(H), s_alt))
-        for nm, alt in (("via_SVDMimo_class", M.SVDMimo._calcMMSEFilter(np.array(H), s_alt)),
-                        ("via_instance", M.Blast(None)._calcMMSEFilter(np.array(H), s_alt))):
-            if not np.array_equal(np.asarray(alt), Wb):
-                chk.fail(("mmse_filter", "entry_point_differs", nm), case)
-        for nm, B in (("noise0", B0), ("noiseNone", Bn), ("noise_int0", Bi)):
-            if not N.close(B, math.sqrt(nt) * pinv_ref, kappa, C_RT):
-                chk.fail(("blast_receive_filter", nm, "not_sqrtNt_pinv"), case,
-                         observed=N.err(B, math.sqrt(nt) * pinv_ref), expected=0)
-    with chk.guard(("mmse_filter", shape_class(nr, nt)), case):
+                chk.fail(("zf_filter", "not_pseudo_inverse", nm), case, observed=N.err(G, pinv_ref), expected=0)
+        if zf_priv is not MISSING:
+            Gp = np.asarray(zf_priv(np.array(H)))
+            if Gp.shape != (nt, nr) or not N.close(Gp, pinv_ref, kappa, C_RT):
+                chk.fail(("zf_filter", "helper_not_pseudo_inverse"), case, observed=N.err(Gp, pinv_ref), expected=0)
+            # alternative entry points of the same static helper: subclass, instance
+            for nm, owner in (("via_GMDMimo_class", M.GMDMimo), ("via_instance", M.MRC(None))):
+                alt = _private(owner, "_calcZeroForceFilter", "calcZeroForceFilter", "_calc_zero_force_filter")
+                if alt is not MISSING and not N.close(np.asarray(alt(np.array(H))), Gp, kappa, C_RT):
+                    chk.fail(("zf_filter", "entry_point_differs", nm), case)
+        if brf_priv is not MISSING:
+            for nm, nv in (("noise0", 0.0), ("noiseNone", None), ("noise_int0", 0)):
+                B = np.asarray(brf_priv(np.array(H), nv))
+                if not N.close(B, math.sqrt(nt) * pinv_ref, kappa, C_RT):
+                    chk.fail(("blast_receive_filter", nm, "not_sqrtNt_pinv"), case,
+                             observed=N.err(B, math.sqrt(nt) * pinv_ref), expected=0)
+    with guard(chk, ("mmse_filter", shape_class(nr, nt)), case):
         prev = None
         g2 = fam_scale(case["fam"]) ** 2
         for s2 in [v * g2 for v in SIGMA2]:
             chk.count("eval_mmse")
-            W = np.asarray(M.MimoBase._calcMMSEFilter(np.array(H), s2))
+            W = public_filter(M, H, s2)             # the MMSE filter reached through the public decode
             if W.shape != (nt, nr):
                 chk.fail(("mmse_filter", "shape"), case, observed=W.shape, expected=(nt, nr))
                 break
@@ -439,10 +541,21 @@ def run_filters(chk, case):
                 chk.fail(("mmse_filter", "not_monotone"), dict(case, sigma2=s2),
                          observed=dist, expected="<= %g" % prev)
             prev = dist
-            Bm = np.asarray(M.Blast._calc_receive_filter(np.array(H), s2))
-            if not N.close(Bm, math.sqrt(nt) * Wref, k2, C_MMSE):
-                chk.fail(("blast_receive_filter", "noise>0", "not_sqrtNt_mmse"), dict(case, sigma2=s2),
-                         observed=N.err(Bm, math.sqrt(nt) * Wref), expected=0)
+            if mmse_priv is not MISSING:
+                Wp = np.asarray(mmse_priv(np.array(H), s2))
+                if Wp.shape != (nt, nr) or not N.close(Wp, Wref, k2, C_MMSE):
+                    chk.fail(("mmse_filter", "helper_closed_form"), dict(case, sigma2=s2),
+                             observed=N.err(Wp, Wref), expected=0, msg="s=%g" % s2)
+                if s2 == SIGMA2[1] * g2:
+                    for nm, owner in (("via_SVDMimo_class", M.SVDMimo), ("via_instance", M.Blast(None))):
+                        alt = _private(owner, "_calcMMSEFilter", "calcMMSEFilter", "_calc_mmse_filter")
+                        if alt is not MISSING and not N.close(np.asarray(alt(np.array(H), s2)), Wp, k2, C_MMSE):
+                            chk.fail(("mmse_filter", "entry_point_differs", nm), case)
+            if brf_priv is not MISSING:
+                Bm = np.asarray(brf_priv(np.array(H), s2))
+                if not N.close(Bm, math.sqrt(nt) * Wref, k2, C_MMSE):
+                    chk.fail(("blast_receive_filter", "noise>0", "not_sqrtNt_mmse"), dict(case, sigma2=s2),
+                             observed=N.err(Bm, math.sqrt(nt) * Wref), expected=0)
         if nr * nt > 1:
             chk.nontriv(("filters", case["fam"], case["member"], nr, nt))
 
@@ -677,7 +790,7 @@ def hist_invariant(chk, scheme, hist, st):
         return
     when = last_mutator(hist)
     chk.outcome("history_config", (scheme, st.ch if st.Hrep is None else "reported", st.noise))
-    with chk.guard((scheme, "history", when), case):
+    with guard(chk, (scheme, "history", when), case):
         obj = st.obj
         H2 = cur_H(scheme, st)          # channel of the model = last valid set, or the REPORTED one
         nr, nt = H2.shape
@@ -834,7 +947,7 @@ def multi_invariant(chk, hist, st):
         chk.fail(("multi_object", "exception", type(st.err).__name__), case,
                  observed="%s: %s" % (type(st.err).__name__, st.err), expected="no exception")
         return
-    with chk.guard(("multi_object",), case):
+    with guard(chk, ("multi_object",), case):
         # every live object is used first; lone reference objects are only created afterwards
         got = []
         for i, (scheme, cc) in enumerate(MULTI):
